@@ -45,9 +45,15 @@ package redis
 //@   modifies nothing
 //@   ensures @join result == curjoin(nodeIdx, nodeCursor)
 
+//@ func (*upstream).Hosts
+//@   prop C18
+//@   modifies nothing
+//@   ensures @members-non-nil forall k int :: 0 <= k && k < len(result) ==> result[k] != nil
+
 //@ func newScanRequest
 //@   prop C18 C11
 //@   requires raw != nil && raw.body != nil
+//@   modifies nothing
 //@   ensures @too-short len(raw.body.Array) < 2 ==> result1 != nil
 //@   ensures @parsed result1 == nil ==> result0 != nil && result0.raw == raw && len(raw.body.Array) >= 2
 
